@@ -169,6 +169,9 @@ func NewPathConds(t *Terms) *PathConds {
 				break
 			}
 			lit := p.edgeLit(pr, b)
+			if isLoopHeader(pr) && !loopBody(pr)[b] {
+				lit = "" // leaving a loop: its exit test is about loop-variant values
+			}
 			for _, c := range pc.cs {
 				if lit == "" {
 					acc = append(acc, c)
